@@ -33,7 +33,7 @@ def cases(draw, tier="quick"):
     n = draw(st.integers(3, 24)) if draw(st.integers(0, 4)) else draw(st.integers(25, 44))
     lab = gen.draw_labels(draw, n, kinds=["int", "negint", "float", "str", "bigint", "u1", "u8", "i2"], max_groups=8,
                           styles=["random", "random", "periodic", "blocks", "runs", "sorted"])  # fmt: skip
-    prov = draw(st.booleans())
+    prov = draw(st.booleans()) and n <= 30
     if prov:
         func, dt = "sum", "<i8"
         vals = [3**i for i in range(n)]
